@@ -299,6 +299,17 @@ class CrashSaveEngine(Engine):
         if not swarm["prev_version"]:
             steps = [s for s in steps if s["op"] != "reopen"]
         swarm["liveness_every"] = rng.choice([1, 7, 31])
+        m1 = next((e for e in base["init"] if e.get("p") == "m1.py" and "def add(a, b):" in e.get("text", "")), None)
+        if m1 is not None and rng.random() < 0.5:
+            # object information older than the sources: a call recorded with two arguments
+            # (automatic static analysis on write), saved, then the function loses a parameter
+            swarm["soa"] = True
+            t1 = m1["text"] + "extra = 1\n"
+            t2 = t1.replace("def add(a, b):", "def add(a):")
+            steps[:0] = [{"op": "do", "cs": {"id": 9101, "desc": "cs9101", "ops": [["edit", "m1.py", t1]]}},
+                         {"op": "reopen"},
+                         {"op": "do", "cs": {"id": 9102, "desc": "cs9102", "ops": [["edit", "m1.py", t2]]}}]
+            swarm["stale_objectinfo_scenario"] = True
         if rng.random() < 0.3:
             # a data file larger than a buffered writer's block (8 KiB): old/new contents of a big module
             files = [e["p"] for e in base["init"] if not e.get("dir")]
@@ -330,15 +341,22 @@ class CrashSaveEngine(Engine):
             model = HistoryModel(TreeModel(W.snapshot()), limit)
             for i, st in enumerate(trace["steps"]):
                 op = st["op"]
-                if op == "sync":
+                if op in ("sync", "reopen"):
                     W.clock.advance(1_000_000_000)
                     W.use()
-                    W.project.sync()
-                elif op == "reopen":
-                    W.clock.advance(1_000_000_000)
-                    W.use()
-                    W.project.close()
-                    W.open()
+                    try:
+                        if op == "sync":
+                            W.project.sync()
+                        else:
+                            W.project.close()
+                            W.open()
+                            realize.history_struct(W.project)
+                    except Exception as e:
+                        # not even an *uninterrupted* save can be opened again
+                        out.evals += 1
+                        out.violate("clean_save_cannot_be_reopened", {"point": "clean", "exc": type(e).__name__},
+                                    {"step": i, "op": op, "exc": repr(e)[:300]}, where="clean[%d]" % i)
+                        return out
                 elif op == "oi":
                     reo._oi(W, st)
                 elif op == "analyze":
@@ -349,7 +367,13 @@ class CrashSaveEngine(Engine):
                         break
             ropedir = os.path.join(W.root, ROPEFOLDER)
             pre = _read_dir(ropedir)
-            prev_h, prev_o = self._load_versions(W)  # what is on disk now (previous version)
+            try:
+                prev_h, prev_o = self._load_versions(W)  # what is on disk now (previous version)
+            except Exception as e:
+                out.evals += 1
+                out.violate("clean_save_cannot_be_reopened", {"point": "clean", "exc": type(e).__name__},
+                            {"step": "before the recorded close", "exc": repr(e)[:300]}, where="clean[prev]")
+                return out
             new_h = realize.history_struct(W.project)
             new_o = objectdb_view(W.project)
             W.use()
